@@ -110,8 +110,14 @@ LEAVES = [("lit", "2"), ("lit", "3"), ("lit", "5"), ("lit", "7"), ("lit", "1"), 
 PRELUDE = "let obs = [];\nlet a = [10, 20, 30, 40, 50, 60, 70, 80];\nfn f(p) { p }\nlet x = 2;\nlet y = 3;\n"
 
 
-def program(expr_text):
-    return PRELUDE + f"push(obs, {expr_text});\nx * 100 + y\n"
+# the places an expression can stand in: the grouping must not depend on them
+CONTEXTS = ["push(obs, {E});", "push(obs, match 1 {{ 1 => {E}, _ => 0 }});", "push(obs, match x {{ 5 | 2 => {{ {E} }}, _ => 0 }});",
+            "push(obs, if true {{ {E} }} else {{ 0 }});", "push(obs, [{E}][0]);", "push(obs, f({E}));", "let t_ = {E};\npush(obs, t_);",
+            "fn g_() {{ {E} }}\npush(obs, g_());", "push(obs, map {{1: {E}}}[1]);", "let k_ = 0;\nwhile k_ < 1 {{ k_ = k_ + 1; push(obs, {E}); }}"]
+
+
+def program(expr_text, ctx_idx=0):
+    return PRELUDE + CONTEXTS[ctx_idx % len(CONTEXTS)].format(E=expr_text) + "\nx * 100 + y\n"
 
 
 def rand_tree(rng, depth):
@@ -301,8 +307,12 @@ def pexpr_cases(ctx, ts):
 
 def cases(ctx):
     ts = trees(ctx)
-    mins = [program(mn(t)) for _, t in ts]
-    fulls = [program(full(t)) for _, t in ts]
+    # every tree in the plain context; a rotating second context (match arm, if branch, call argument, …) for each
+    ts = ts + [("ctx:" + shape, t) for shape, t in ts]
+    half = len(ts) // 2
+    cidx = [0] * half + [1 + (k % (len(CONTEXTS) - 1)) for k in range(half)]
+    mins = [program(mn(t), cidx[k]) for k, (_, t) in enumerate(ts)]
+    fulls = [program(full(t), cidx[k]) for k, (_, t) in enumerate(ts)]
     lines = lang_lines(ctx, mins, ast_sources=fulls)
     # the real parser's AST of the minimal text must be the AST of the full text
     same = []
@@ -313,7 +323,7 @@ def cases(ctx):
     out = []
     for i, (l, (shape, t)) in enumerate(zip(lines, ts)):
         out.append(Case(l, (shape,), extra={"shape": shape, "min": mn(t), "full": full(t), "src": mins[i], "ast_same": same[i] if same else None}))
-    return out + pexpr_cases(ctx, ts)
+    return out + pexpr_cases(ctx, ts[:half])
 
 
 def judge(c):
